@@ -42,13 +42,20 @@ deriving Repr, Inhabited, DecidableEq
 /-- Tree node specialised to one query point: `lb` is
 `squaredDistanceLowerBound(query)`, `goLeft` is `isLeft(query)`.
 Leaves carry `queued` (status COMPLETE) instead of a three-valued status: the
-C++ never assigns PARTIAL to a leaf.  Trace nodes the C++ has not created yet
+C++ never assigns PARTIAL to a leaf.  A leaf holds the list `es` of QUEUE ENTRIES that
+`insertIntoQueue(leaf)` adds: the code with the leaf queue (`boost::intrusive::rbtree<TraceLeaf>`)
+adds ONE entry for the whole leaf, keyed by the distance of the leaf's first point (`leafEntries false`);
+the point-queue variant (the repair of finding K1: `std::set<std::pair<double,std::size_t>>`) adds one
+entry per point, keyed by the point's own distance and its index (`leafEntries true`).  Trace nodes the C++ has not created yet
 are represented with status NONE (creation is unobservable: the data of a trace
 node is a function of the tree node and the query). -/
 inductive TTree where
-  | leaf (queued : Bool) (lb : Rat) (lf : Leaf)
+  | leaf (queued : Bool) (lb : Rat) (es : List Leaf)
   | node (st : Status) (lb : Rat) (goLeft : Bool) (l r : TTree)
 deriving Repr, Inhabited
+
+/-- all point indices held by a list of queue entries -/
+def qpts (q : List Leaf) : List Nat := q.flatMap (·.pts)
 
 /-- The sentinel `1e100` returned by `squaredRadius` for COMPLETE nodes. -/
 def big : Rat := ((10 ^ 100 : Nat) : Rat)
@@ -65,7 +72,7 @@ def lb : TTree → Rat
 
 /-- all point indices below the node, in index-list order -/
 def pts : TTree → List Nat
-  | leaf _ _ lf => lf.pts
+  | leaf _ _ es => qpts es
   | node _ _ _ l r => l.pts ++ r.pts
 
 /-- `m_tree->size()` -/
@@ -73,7 +80,7 @@ def size (t : TTree) : Nat := t.pts.length
 
 /-- points of leaves that have not been queued yet -/
 def unq : TTree → List Nat
-  | leaf q _ lf => if q then [] else lf.pts
+  | leaf q _ es => if q then [] else qpts es
   | node _ _ _ l r => l.unq ++ r.unq
 
 /-- `TraceNode::squaredRadius` (`std::min(l, r)` returns `r` iff `r < l`) -/
@@ -132,10 +139,10 @@ def rule (st sib : Status) : Status × Bool :=
 subtree, the updated queue and whether an upward walk of `insertIntoQueue`
 leaves the subtree (i.e. must be continued at the parent of `tn`). -/
 def enqueue : TTree → List Leaf → TTree × List Leaf × Bool
-  | .leaf queued lb lf, q =>
-    if queued then (.leaf queued lb lf, q, false)
-    else if prune q lb then (.leaf queued lb lf, q, false)
-    else (.leaf true lb lf, lf :: q, true)
+  | .leaf queued lb es, q =>
+    if queued then (.leaf queued lb es, q, false)
+    else if prune q lb then (.leaf queued lb es, q, false)
+    else (.leaf true lb es, es ++ q, true)
   | .node st lb gl l r, q =>
     if st = .done then (.node st lb gl l r, q, false)
     else if prune q lb then (.node st lb gl l r, q, false)
@@ -158,7 +165,7 @@ def enqueue : TTree → List Leaf → TTree × List Leaf × Bool
 inside the whole trace tree, including the part of the upward walk above `tn`. -/
 def enqAt : TTree → List Bool → List Leaf → TTree × List Leaf × Bool
   | t, [], q => enqueue t q
-  | .leaf queued lb lf, _ :: _, q => (.leaf queued lb lf, q, false)
+  | .leaf queued lb es, _ :: _, q => (.leaf queued lb es, q, false)
   | .node st lb gl l r, b :: p, q =>
     if b then
       let (l', q', e) := enqAt l p q
@@ -186,7 +193,7 @@ def enqLoop : TTree → List Leaf → Option (List Bool) → List Bool →
 unconditionally (`insertIntoQueue`), walk up.  Returns the tree, the queued leaf,
 the walk flag and the top-down path of the leaf. -/
 def initDescend : TTree → TTree × List Leaf × Bool × List Bool
-  | .leaf _ lb lf => (.leaf true lb lf, [lf], true, [])
+  | .leaf _ lb es => (.leaf true lb es, es, true, [])
   | .node st lb gl l r =>
     if gl then
       let (l', q, e, p) := initDescend l
@@ -470,21 +477,146 @@ def leafD (dist : Nat → Rat) (ix : List Nat) : Rat :=
   | [] => 0
   | i :: _ => dist i
 
+/-- The queue entries `insertIntoQueue` adds for a leaf with index slice `ix`.
+`pq = false`: the leaf queue of the code as it is (one entry, distance of the FIRST point, tie-break
+by node address rank).  `pq = true`: the point queue (repair of K1): one entry per point with its
+own distance, tie-break by point index. -/
+def leafEntries (pq : Bool) (dist : Nat → Rat) (rank : Nat) (ix : List Nat) : List Leaf :=
+  if pq then ix.map fun i => { d := dist i, rank := i, pts := [i] }
+  else [{ d := leafD dist ix, rank := rank, pts := ix }]
+
 /-- kd-tree specialised to a query `q`: the `TTree` the query runs on. -/
-def kdTrace (q : Point) (dist : Nat → Rat) : STree → Box → TTree
-  | .leaf rank ix, b => .leaf false (kdBound b q) { d := leafD dist ix, rank := rank, pts := ix }
+def kdTrace (pq : Bool) (q : Point) (dist : Nat → Rat) : STree → Box → TTree
+  | .leaf rank ix, b => .leaf false (kdBound b q) (leafEntries pq dist rank ix)
   | .node _ cd thr l r, b =>
     .node .unq (kdBound b q) (decide (coord q cd < thr))
-      (kdTrace q dist l (b.left cd thr)) (kdTrace q dist r (b.right cd thr))
+      (kdTrace pq q dist l (b.left cd thr)) (kdTrace pq q dist r (b.right cd thr))
 
 /-- any tree with externally supplied per-node `(lower bound, isLeft)` in preorder -/
-def absTrace (dist : Nat → Rat) : STree → List (Rat × Bool) → TTree × List (Rat × Bool)
+def absTrace (pq : Bool) (dist : Nat → Rat) : STree → List (Rat × Bool) → TTree × List (Rat × Bool)
   | .leaf rank ix, ann =>
-    (.leaf false (ann.head?.map (·.1) |>.getD 0) { d := leafD dist ix, rank := rank, pts := ix }, ann.tail)
+    (.leaf false (ann.head?.map (·.1) |>.getD 0) (leafEntries pq dist rank ix), ann.tail)
   | .node _ _ _ l r, ann =>
-    let (l', a1) := absTrace dist l ann.tail
-    let (r', a2) := absTrace dist r a1
+    let (l', a1) := absTrace pq dist l ann.tail
+    let (r', a2) := absTrace pq dist r a1
     (.node .unq (ann.head?.map (·.1) |>.getD 0) (ann.head?.map (·.2) |>.getD false) l' r', a2)
+
+/-- The model's kd-tree with the leaf order and node ranks of the real one (`std::nth_element` and the
+allocator decide them), provided both have the same shape, cut dimensions, thresholds and the same
+index SET in every leaf. -/
+def adoptKD : STree → STree → Option STree
+  | .leaf _ ix, .leaf rk ix' => if ix.isPerm ix' then some (.leaf rk ix') else none
+  | .node _ cd thr l r, .node rk cd' thr' l' r' =>
+    if cd = cd' ∧ thr = thr' then
+      match adoptKD l l', adoptKD r r' with
+      | some a, some b => some (.node rk cd thr a b)
+      | _, _ => none
+    else none
+  | _, _ => none
+
+/-! ## LC-tree and KHC-tree construction (`LCTree.h`, `KHCTree.h`)
+
+Both trees split a cell by the hyperplane orthogonal to the line through two PIVOT points of the cell
+(`calculateNormal`: a pair of maximal distance among at most 25 sample points), at the median of the
+projections (`BinaryTree::splitList`, the same routine as the kd-tree).  The LC-tree works with the
+Euclidean inner product, the KHC-tree with a kernel; with `k = dot` both coincide, so one model serves
+both.  The C++ `funct(x)` is `(k(p,x) - k(n,x)) / sqrt(D)` with `D = featureDist2 k p n`; the model works
+with the SCALED projection `k(p,x) - k(n,x)` (a rational number on integer data; the positive factor
+`1/sqrt(D)` changes neither the order of the values nor which side a point is on) and divides SQUARED
+quantities by `D`.  Ideal (real-number) arithmetic: the rounding of the C++ doubles is outside the model. -/
+
+/-- scaled `funct`: `sqrt(D) * funct(x)` for the pivot pair `pn = (positive, negative)` -/
+def projVal (k : Point → Point → Rat) (P : Nat → Point) (pn : Nat × Nat) (x : Point) : Rat :=
+  k (P pn.1) x - k (P pn.2) x
+
+/-- `best_dist2` of `calculateNormal` for the pair -/
+def pivD (k : Point → Point → Rat) (P : Nat → Point) (pn : Nat × Nat) : Rat :=
+  featureDist2 k (P pn.1) (P pn.2)
+
+/-- inner loop of `calculateNormal` (`for j = 0 .. i-1`): `acc = (best_dist2, besti, bestj)` -/
+def farLoopJ (fd : Nat → Nat → Rat) (xi : Nat) : List Nat → Rat × Nat × Nat → Rat × Nat × Nat
+  | [], acc => acc
+  | xj :: js, acc =>
+    farLoopJ fd xi js (if acc.1 < fd xi xj then (fd xi xj, xi, xj) else acc)
+
+/-- outer loop (`for i = 1 .. n-1`); `before` = the elements in front of `xi`, in order -/
+def farLoopI (fd : Nat → Nat → Rat) : List Nat → List Nat → Rat × Nat × Nat → Rat × Nat × Nat
+  | _, [], acc => acc
+  | before, xi :: rest, acc => farLoopI fd (before ++ [xi]) rest (farLoopJ fd xi before acc)
+
+/-- `calculateNormal` on the samples `idx` (in the order of the range): the FIRST pair `(i, j)`, `j < i`,
+of maximal distance in loop order; `(positive, negative) = (samples[i], samples[j])`. -/
+def farthestPair (fd : Nat → Nat → Rat) (idx : List Nat) : Nat × Nat :=
+  match idx with
+  | [] => (0, 0)
+  | x0 :: rest => let r := farLoopI fd [x0] rest (-1, x0, x0); (r.2.1, r.2.2)
+
+/-- the samples of a cell with more than 25 points: `points[m_size*(2i+1)/50]`, `i = 0..24` -/
+def samples25 (idx : List Nat) : List Nat :=
+  if idx.length ≤ 25 then idx
+  else (List.range 25).map fun i => idx.getD (idx.length * (2 * i + 1) / 50) 0
+
+/-- LC/KHC tree: leaves hold their slice of the index list, inner nodes the pivot pair and the SCALED
+threshold (`sqrt(D) * m_threshold`). -/
+inductive PTree where
+  | leaf (rank : Nat) (idx : List Nat)
+  | node (rank : Nat) (pn : Nat × Nat) (thr : Rat) (l r : PTree)
+deriving Repr, Inhabited
+
+namespace PTree
+def idx : PTree → List Nat
+  | leaf _ ix => ix
+  | node _ _ _ l r => l.idx ++ r.idx
+
+def nodes : PTree → Nat
+  | leaf _ _ => 1
+  | node _ _ _ l r => 1 + l.nodes + r.nodes
+end PTree
+
+/-- `LCTree::buildTree` / `KHCTree::buildTree` with the pivot choice `pick` (the C++:
+`farthestPair` of `samples25` of the range in its current order; that order is left to
+`std::nth_element`, so the theorems hold for EVERY `pick`, and the correspondence checks that the real
+pivot pair is a farthest pair).  A cell is a leaf when it holds at most `bucket` points or when
+`splitList` fails (all projections equal: all points on one hyperplane orthogonal to the pivot
+line; with a farthest pair this means all points coincide in the metric). -/
+def buildPiv (k : Point → Point → Rat) (P : Nat → Point) (pick : List Nat → Nat × Nat) (bucket : Nat) :
+    Nat → Nat → List Nat → PTree
+  | 0, _, idx => .leaf 0 idx
+  | fuel + 1, depth, idx =>
+    if depth = 0 ∨ idx.length ≤ bucket then .leaf 0 idx
+    else
+      let pn := pick idx
+      match splitList (fun i => projVal k P pn (P i)) idx with
+      | none => .leaf 0 idx
+      | some s => .node 0 pn s.thr (buildPiv k P pick bucket fuel (nextDepth depth) s.left)
+                                   (buildPiv k P pick bucket fuel (nextDepth depth) s.right)
+
+/-- `LCTree(dataset, tc)` (`k = dot`) / `KHCTree(points, kernel, tc)` on points `0..n-1` -/
+def pivTree (k : Point → Point → Rat) (P : Nat → Point) (pick : List Nat → Nat × Nat)
+    (n maxDepth maxBucket : Nat) : PTree :=
+  buildPiv k P pick (normBucket maxBucket) (n + 1) (normDepth maxDepth) (List.range n)
+
+/-- the C++ pivot choice on the model's own order of the range -/
+def pickFar (k : Point → Point → Rat) (P : Nat → Point) (idx : List Nat) : Nat × Nat :=
+  farthestPair (fun i j => featureDist2 k (P i) (P j)) (samples25 idx)
+
+def maxRat (a b : Rat) : Rat := if a < b then b else a
+
+/-- `LCTree/KHCTree::squaredDistanceLowerBound` of the two children of a node, given the bound `acc` of
+the node itself: the walk to the root takes the largest positive signed plane distance; squared and in
+scaled units that is `v*v/D` for `v = sqrt(D) * distanceFromPlane(q)`.  Left child: counts if `v > 0`;
+right child: if `v < 0`. -/
+def pivChildBounds (acc v D : Rat) : Rat × Rat :=
+  (if 0 < v then maxRat acc (v * v / D) else acc, if v < 0 then maxRat acc (v * v / D) else acc)
+
+/-- LC/KHC tree specialised to a query `q` (ideal arithmetic): lower bounds and `isLeft` decisions. -/
+def pivTrace (pq : Bool) (k : Point → Point → Rat) (P : Nat → Point) (q : Point) (dist : Nat → Rat) :
+    PTree → Rat → TTree
+  | .leaf rank ix, acc => .leaf false acc (leafEntries pq dist rank ix)
+  | .node _ pn thr l r, acc =>
+    let v := projVal k P pn q - thr
+    let b := pivChildBounds acc v (pivD k P pn)
+    .node .unq acc (decide (v < 0)) (pivTrace pq k P q dist l b.1) (pivTrace pq k P q dist r b.2)
 
 /-! ## `NearestNeighborModel` -/
 
